@@ -16,15 +16,15 @@ other `Props/Pipeline*.lean` files this one has no property id of its own; each 
   the start offset (`--head`: of the whole file), each once, in order, whatever the chunking and the interleaving.
 * C11 at program level — `follow_select_prints_batch_output` (non-aggregate statement, WHERE / DISTINCT / LIMIT
   included: everything follow mode writes is what the batch program prints over the same lines, same status),
-  `follow_screen_is_batch_output` (aggregate statement without LIMIT and join, text / JSON format: the k-th delivered
+  `follow_screen_is_batch_output` (aggregate statement without LIMIT and join, every format: the k-th delivered
   line either refreshes the screen with exactly the output of the batch program over the first k lines, or — WHERE or
   the admission rule rejects it — leaves everything as it is and the batch output over k lines is the one over k−1;
   `shown_line_screen_is_batch_output`: the last screen after a shown line IS that batch output).
   Side conditions, exactly (`PlainLine`): the batch reader must read the delivered lines as the same texts — valid
   UTF-8 (follow mode does NOT end on an invalid line and reports nothing: the line's text is `from_utf8_lossy`, an
   external fact; batch mode ends with `FailReadFile`) and no `\r` before the `\n` (follow mode keeps it as content).
-  In CSV format the ONE printer keeps its header state across the clears: finding D65, witnessed by
-  `d65_csv_header_only_on_first_screen`.
+  In CSV format every refreshed table has its header (the printer is told `start_table()` after each clear): D65,
+  repaired in /repo e80a2b6; regression witness `d65_repaired_csv_header_on_every_screen`.
 * C19 at program level — `interrupt_is_run_over_lines_delivered_before`, `interrupted_output_is_a_prefix`: an
   interrupt anywhere in the schedule leaves what was written a prefix of what the uninterrupted schedule writes (for an
   aggregate statement: a prefix of its sequence of screens) and adds no error.
@@ -146,7 +146,7 @@ theorem follow_select_prints_batch_output (F : Facts) (defsText queryText : List
     · rfl
 
 /-- **The k-th delivered line and the screen** (C11 at program level, aggregate statements). Definition text and
-aggregate query text without join and without LIMIT, text or JSON format; `pre ++ [l]` the lines delivered so far, all
+aggregate query text without join and without LIMIT, any output format (text, JSON, CSV); `pre ++ [l]` the lines delivered so far, all
 read as the same texts by the batch reader; follow mode over them ends `Ok` having written `w`; the batch program over
 the one file holding them ends `Ok` having printed `ls`; the GROUP BY keys seen are exact (else D60). Then follow mode
 over the first k−1 lines ended `Ok` too, having written `w₀`, and
@@ -156,7 +156,7 @@ over the first k−1 lines ended `Ok` too, having written `w₀`, and
 Applied to every prefix: every screen follow mode ever shows is the batch output over the lines consumed up to it, and
 the last screen is the batch output over all delivered lines up to the last one that is shown. -/
 theorem follow_screen_is_batch_output (F : Facts) (defsText queryText : List Char) (fmt : Print.Format) (single : Bool)
-    (pre : List (List Nat)) (l : List Nat) (hplain : ∀ x ∈ pre ++ [l], PlainLine x) (hfmt : headerless fmt = true)
+    (pre : List (List Nat)) (l : List Nat) (hplain : ∀ x ∈ pre ++ [l], PlainLine x)
     (defs : LStmt) (tables : List Table) (a : AggStmt) (fromTable : String) (file : Option String) (t : Table)
     (hc : classesCover F defsText = true ∧ classesCover F queryText = true)
     (hd : parseText (lexOracles F) (regexValidFn F) defsText = .stmt defs)
@@ -244,8 +244,8 @@ theorem follow_screen_is_batch_output (F : Facts) (defsText queryText : List Cha
       refine ⟨_, hpre_ok (by rw [hcalls]; exact List.prefix_append _ _), fun _ => ?_, fun hns => absurd hs hns⟩
       rw [hfw, hcalls, termItems_append]
       congr 1
-      simp only [termItems, if_true, List.append_nil, List.singleton_append]
-      rw [hls, printResult_headerless _ fmt hfmt, List.map_map]
+      simp only [termItems, if_true, List.append_nil, List.singleton_append, Bool.true_or]
+      rw [hls, List.map_map]
       rfl
     · obtain ⟨hcalls, hbc', hbf'⟩ := hnot hs
       refine ⟨_, hpre_ok (by rw [hcalls]; exact List.prefix_refl _), fun hs' => absurd hs' hs, fun _ => ⟨by rw [hfw, hcalls], ?_⟩⟩
@@ -290,7 +290,7 @@ theorem follow_screen_is_batch_output (F : Facts) (defsText queryText : List Cha
 last screen of what it has written — is exactly the output of the batch program over the first k lines; in particular
 the final screen of a follow run whose last delivered line is shown is the batch output over all delivered lines -/
 theorem shown_line_screen_is_batch_output (F : Facts) (defsText queryText : List Char) (fmt : Print.Format) (single : Bool)
-    (pre : List (List Nat)) (l : List Nat) (hplain : ∀ x ∈ pre ++ [l], PlainLine x) (hfmt : headerless fmt = true)
+    (pre : List (List Nat)) (l : List Nat) (hplain : ∀ x ∈ pre ++ [l], PlainLine x)
     (defs : LStmt) (tables : List Table) (a : AggStmt) (fromTable : String) (file : Option String) (t : Table)
     (hc : classesCover F defsText = true ∧ classesCover F queryText = true)
     (hd : parseText (lexOracles F) (regexValidFn F) defsText = .stmt defs)
@@ -303,7 +303,7 @@ theorem shown_line_screen_is_batch_output (F : Facts) (defsText queryText : List
     (hb : runText F defsText queryText fmt single [wire (pre ++ [l])] = .records none n ls)
     (hs : lineShown F.eval { stmt := .aggregate a, table := t.info, join := none } a (extractedLine F t.defn l)) :
     (screens w).getLast? = some ls := by
-  obtain ⟨w₀, _, h1, _⟩ := follow_screen_is_batch_output F defsText queryText fmt single pre l hplain hfmt defs tables a fromTable
+  obtain ⟨w₀, _, h1, _⟩ := follow_screen_is_batch_output F defsText queryText fmt single pre l hplain defs tables a fromTable
     file t hc hd hp hq ht hg hlim hex w hf n ls hb
   rw [h1 hs]
   exact (screens_last_after_clear w₀ ls).1
@@ -541,13 +541,14 @@ example : ((queriedTable exFacts exDefs "select k from t".toList).map (fun t => 
 example : ranOf (followLines exFacts exDefs "select k from t".toList .text [strBytes "a;1", strBytes "zzz", strBytes "b;2"] none) =
     ranOf (followLines exFacts exDefs "select k from t".toList .text [strBytes "a;1", strBytes "b;2"] none) := by decide +kernel
 
-/-- **D65** (witness; open finding): follow mode, CSV format, aggregate statement. The one `OutputPrinter` of the run
-keeps its `first_line` state across the clears of the screen: the header is written on the first refresh only, whereas
-the batch program over the first two lines prints header and row. -/
-theorem d65_csv_header_only_on_first_screen :
+/-- **D65, repaired** (regression witness; /repo e80a2b6): follow mode, CSV format, aggregate statement. After every clear
+of the screen the one `OutputPrinter` is told to start a new table, so EVERY refresh shows header and rows — the second
+screen is the batch program's output over the first two lines. (Before the repair the printer kept `first_line = false`
+across the clears and the second screen was the row `2` alone.) -/
+theorem d65_repaired_csv_header_on_every_screen :
     ranOf (followText exFacts exDefs "select count(*) as n from t".toList (.csv [59]) true (strBytes "a;1\nb;2\n")
       [.poll 8191, .poll 8191, .poll 8191]) =
-      some (none, [.clear, .line (strBytes "n"), .line (strBytes "1"), .clear, .line (strBytes "2")]) ∧
+      some (none, [.clear, .line (strBytes "n"), .line (strBytes "1"), .clear, .line (strBytes "n"), .line (strBytes "2")]) ∧
     Props.Pipeline.recordsOf (runText exFacts exDefs "select count(*) as n from t".toList (.csv [59]) false [strBytes "a;1\nb;2\n"]) =
       some (none, 2, [strBytes "n", strBytes "2"]) := by decide +kernel
 
